@@ -34,8 +34,11 @@ def drv(name):
     return impl, O.oracle(name)
 
 
+FIRST = "Aa Bb"      # a valid concrete first co-author: an invalid later name must not leave a half-converted list
+
+
 def drv_mw(name):
-    entry = Entry("article", "k", [Field("title", "t"), Field("author", [name])])
+    entry = Entry("article", "k", [Field("title", "t"), Field("author", [FIRST, name])])
     lib = Library([entry])
     out = N.SplitNameParts(allow_inplace_modification=True).transform(lib)
     return entry, out.blocks, O.oracle(name)
@@ -70,7 +73,7 @@ def replay_mw(name):
     exp = O.oracle(name)
     if exp[0] == "unspecified":
         return None
-    entry = Entry("article", "k", [Field("title", "t"), Field("author", [name])])
+    entry = Entry("article", "k", [Field("title", "t"), Field("author", [FIRST, name])])
     try:
         out = N.SplitNameParts(allow_inplace_modification=True).transform(Library([entry]))
     except Exception as e:  # noqa
@@ -78,12 +81,13 @@ def replay_mw(name):
     b = out.blocks
     if exp[0] == "invalid":
         ok = (len(b) == 1 and isinstance(b[0], MiddlewareErrorBlock) and b[0].ignore_error_block is entry
-              and entry.fields[1].value == [name] and isinstance(b[0].error, N.InvalidNameError))
+              and entry.fields[1].value == [FIRST, name] and isinstance(b[0].error, N.InvalidNameError))
     else:
-        ok = (len(b) == 1 and b[0] is entry and isinstance(entry.fields[1].value, list) and len(entry.fields[1].value) == 1
-              and isinstance(entry.fields[1].value[0], N.NameParts)
-              and [entry.fields[1].value[0].first, entry.fields[1].value[0].von, entry.fields[1].value[0].last,
-                   entry.fields[1].value[0].jr] == list(exp[1:]))
+        v = entry.fields[1].value
+        ok = (len(b) == 1 and b[0] is entry and isinstance(v, list) and len(v) == 2
+              and isinstance(v[0], N.NameParts) and isinstance(v[1], N.NameParts)
+              and [v[0].first, v[0].von, v[0].last, v[0].jr] == [["Aa"], [], ["Bb"], []]
+              and [v[1].first, v[1].von, v[1].last, v[1].jr] == list(exp[1:]))
     if ok:
         return None
     return {"input": name, "observed": f"blocks={[type(x).__name__ for x in b]} author={entry.fields[1].value!r}", "expected": list(exp)}
@@ -160,16 +164,17 @@ def task_mw(L, sigma, prefix=""):
         if exp[0] == "invalid":
             good = (isinstance(b, MiddlewareErrorBlock) and b.ignore_error_block is entry
                     and isinstance(b.error, N.InvalidNameError) and isinstance(entry.fields[1].value, list)
-                    and len(entry.fields[1].value) == 1)
+                    and len(entry.fields[1].value) == 2)
             if good:
-                good = E(entry.fields[1].value[0], s)
+                good = E(entry.fields[1].value, [FIRST, s])
             rec.require(W, b_not(good), "middleware-error-block", rp)
             rec.witness("middleware-error-block", W)
         else:
             v = entry.fields[1].value
-            good = b is entry and isinstance(v, list) and len(v) == 1 and isinstance(v[0], N.NameParts)
+            good = (b is entry and isinstance(v, list) and len(v) == 2 and isinstance(v[0], N.NameParts) and isinstance(v[1], N.NameParts)
+                    and [v[0].first, v[0].von, v[0].last, v[0].jr] == [["Aa"], [], ["Bb"], []])
             if good:
-                good = b_all(E(a, c) for a, c in zip([v[0].first, v[0].von, v[0].last, v[0].jr], exp[1:]))
+                good = b_all(E(a, c) for a, c in zip([v[1].first, v[1].von, v[1].last, v[1].jr], exp[1:]))
             rec.require(W, b_not(good), "middleware-parts", rp)
     return rec.result(L=L, worlds=len(worlds))
 
